@@ -465,28 +465,60 @@ def reporter_folds(ctx, cr):
                            "test case %s must count (failures, errors, tests) = %s, got %s" % (n, exp, sorted(rows.get(n, set()))), fn=f)
             except ai.Undecided as e:
                 ctx.ob(rule, rule + ":JunitReporter::report::closure", False, "undecided %s" % e, fn=f)
-    # report: totals -> update_exit_code; errors dominate failures
+    # report: the per-file counters (set by the closure decided above) are summed over all data files and the totals
+    # drive update_exit_code; errors dominate failures.  try_fold is modelled by its effect on the captured counters.
+    cf = cr.fns.get(ck)
+    cups = {}
+    if cf:
+        for n, p in cf.get("names", []):
+            if not isinstance(p, int) and M.place_local(p) == 1:
+                for pr in M.place_projs(p):
+                    if isinstance(pr, list) and pr[0] == "f":
+                        cups[n] = pr[1]
+                        break
     for init in (0, 5):
         fields = [("sym", "F%d" % i) for i in range(len(fs))]
         fields[idx] = ("int", init)
         outs = []
 
         class HR(CodeHooks):
-            def watch(self, a, st, sid, val):
-                if val[0] == "bool" and " Gt 0)" in sid:
-                    which = "errors" if st.mon.get("gt_seen", 0) == 0 else "failures"
-                    return st.mon.set(**{which: val[1], "gt_seen": st.mon.get("gt_seen", 0) + 1})
-                return None
-
             def extra_call(self, a, st, term, callee, args):
                 if callee.get("key", "").endswith("JunitReport::serialize"):
                     return [(("enum", ai.RESULT, 0, (("tuple", ()),)), st.mon), (("enum", ai.RESULT, 1, (("sym", "SER_ERR"),)), st.mon)]
+                clos = [a.resolve(st, x) for x in args if a.resolve(st, x)[0] == "closure" and a.resolve(st, x)[1] == ck]
+                if clos and "failures" in cups and "errors" in cups:
+                    cv = clos[0]
+                    outs2 = []
+                    for fv, ftag in ((("int", 0), False), (("ge", 1), True)):
+                        for ev, etag in ((("int", 0), False), (("ge", 1), True)):
+                            outs2.append(("SET", fv, ev, st.mon.set(any_fail=bool(st.mon.get("any_fail")) or ftag, any_err=bool(st.mon.get("any_err")) or etag)))
+                    res = []
+                    for _, fv, ev, m in outs2:
+                        res.append((("enum", ai.RESULT, 0, (("sym", "CASES:%s:%s" % (fv, ev)),)), m.set(pending=(fv, ev))))
+                    res.append((("enum", ai.RESULT, 1, (("sym", "TC_ERR"),)), st.mon.add("codes", "Err")))
+                    self._clos = cv
+                    return res
                 return None
+
+            def constrained(self, a, st, sid, val):
+                CodeHooks.constrained(self, a, st, sid, val)
+
+            def stmt(self, a, st, frame, s_):
+                # apply the pending counter effect of the last try_fold once its result has been bound
+                pend = st.mon.get("pending") if st.mon is not None else None
+                if pend and getattr(self, "_clos", None) is not None:
+                    cv = self._clos
+                    fref = a.resolve(st, cv[2][cups["failures"]])
+                    eref = a.resolve(st, cv[2][cups["errors"]])
+                    if fref[0] == "ref" and eref[0] == "ref":
+                        a.write_ref(st, fref, pend[0])
+                        a.write_ref(st, eref, pend[1])
+                    st.mon = st.mon.set(pending=None)
 
             def ret(self, a, st, v):
                 outs.append((v, st.mon))
         hr = HR(cr, "validate", inline_keys=["commands::reporters::JunitReporter::update_exit_code"])
-        a = ai.AI(cr, hr)
+        a = ai.AI(cr, hr, max_states=600000)
         try:
             a.run(key, args=[("ref", ("X", "SELF"), ())], mon=Mon(), ext={"SELF": ("enum", ADT, 0, tuple(fields))})
             ctx.states += a.n_states
@@ -496,11 +528,11 @@ def reporter_folds(ctx, cr):
                 if v[0] == "enum" and v[1] == ai.RESULT and v[2] == 0:
                     n += 1
                     c = v[3][0]
-                    e, fl = mon.get("errors"), mon.get("failures")
+                    e, fl = bool(mon.get("any_err")), bool(mon.get("any_fail"))
                     exp = 5 if e else ((19 if init != 5 else 5) if fl else init)
                     if c != ("int", exp):
-                        bad.append("errors>0=%s failures>0=%s init=%d gives %s, expected %d" % (e, fl, init, ai.fmt_val(c), exp))
-            ctx.ob(rule, "%s:JunitReporter::report:init=%d" % (rule, init), not bad and n >= 3, "; ".join(bad[:3]) or "%d Ok paths" % n, fn=cr.fns[key])
+                        bad.append("some file errored=%s, some file failed=%s, init=%d gives %s, expected %d" % (e, fl, init, ai.fmt_val(c), exp))
+            ctx.ob(rule, "%s:JunitReporter::report:init=%d" % (rule, init), not bad and n >= 3, "; ".join(sorted(set(bad))[:3]) or "%d Ok paths" % n, fn=cr.fns[key])
         except ai.Undecided as e:
             ctx.ob(rule, "%s:JunitReporter::report:init=%d" % (rule, init), False, "undecided %s" % e, fn=cr.fns[key])
 
